@@ -261,6 +261,15 @@ func RunnerMain() int {
 		return c.determinism()
 	}
 	worlds := WorldsFor(c.prop)
+	if only := os.Getenv("VERIF_ONLY_WORLD"); only != "" { // development aid
+		var ws []*World
+		for _, w := range worlds {
+			if w.Name == only {
+				ws = append(ws, w)
+			}
+		}
+		worlds = ws
+	}
 	if len(worlds) == 0 {
 		fmt.Fprintf(os.Stderr, "runner: no world registered for property %q (known: %v)\n", c.prop, AllProperties())
 		return 2
